@@ -140,7 +140,7 @@ type runner struct {
 	inflight           *committedSet
 	renamed            bool
 	lastNano           int64
-	trace              []string // what happened, for the failure message
+	trace              []string    // what happened, for the failure message
 	fault              *faultState // error-return fault of this run (fault_test.go); nil: none
 }
 
